@@ -1120,6 +1120,39 @@ def _reorder(it, how):
                 changed[0] = True
 
     k = it['kind']
+    if how == 'item':       # the item's own derive_where attributes (trait lists and item-level options) in reverse order
+        idx = [i for i, a in enumerate(it['attrs']) if a[0] == 'Dw']
+        vals = [it['attrs'][i] for i in idx]
+        if len(vals) > 1 and vals != vals[::-1]:
+            for i, v in zip(idx, vals[::-1]):
+                it['attrs'][i] = v
+            return it
+        return None
+    if how == 'traits':     # the traits / options inside each item-level attribute in reverse order
+        for i, a in enumerate(it['attrs']):
+            if a[0] == 'Dw' and a[1][0] == 'List' and len(a[1][1]) > 1 and a[1][1] != a[1][1][::-1]:
+                it['attrs'][i] = ('Dw', ('List', a[1][1][::-1]) + tuple(a[1][2:]))
+                changed[0] = True
+        return it if changed[0] else None
+    if how == 'variants':   # variants in reverse order; implicit discriminants are made explicit first so every value stays what it was
+        if k[0] != 'Enum' or len(k[1]) < 2:
+            return None
+        if any(v['disc'] is not None for v in k[1]):
+            return None     # explicit discriminants: reversing would renumber the implicit ones (disc/* families cover orders)
+        it['kind'] = ('Enum', k[1][::-1])
+        return it
+    if how == 'fields':     # fields of every shape in reverse order (tuple fields keep their types, named fields their names)
+        if k[0] == 'Enum':
+            for v in k[1]:
+                if len(v['fields']) > 1:
+                    v['fields'].reverse()
+                    changed[0] = True
+        else:
+            fl = k[2] if k[0] == 'Struct' else k[1]
+            if len(fl) > 1:
+                fl.reverse()
+                changed[0] = True
+        return it if changed[0] else None
     fls = []
     if k[0] == 'Enum':
         for v in k[1]:
@@ -1137,7 +1170,11 @@ def s1_order():
     """order metamorphs of the systematic and the invalid families (the order in which options and helper attributes are
     written never matters for what is skipped / marked, only for which error is reported first)"""
     for cid, it in itertools.chain(s1_all(), s3_invalid()):
-        for how in ('metas', 'attrs'):
+        for how in ('metas', 'attrs', 'item', 'traits', 'variants', 'fields'):
+            if cid.startswith('known/'):
+                continue    # witnesses of the open findings stay single items
+            if how in ('variants', 'fields', 'traits') and cid.startswith(('disc/', 'stagea/')):
+                continue    # the discriminant families enumerate positions themselves (and are by far the largest)
             r = _reorder(it, how)
             if r is not None:
                 yield 'order/%s/%s' % (how, cid), r
@@ -1150,7 +1187,7 @@ def quick_corpus(seed):
         if cid in seen:
             raise RuntimeError('duplicate case id ' + cid)
         seen.add(cid)
-        if duplicate_discriminant(it) and not cid.startswith(('rand', 'inv/', 'order/metas/inv/', 'order/attrs/inv/')):
+        if duplicate_discriminant(it) and not cid.startswith(('rand', 'inv/')) and not (cid.startswith('order/') and cid.split('/')[2] == 'inv'):
             raise RuntimeError('corpus item %s has a duplicate discriminant value' % cid)
         out.append((cid, it))
     return out
